@@ -374,12 +374,14 @@ func checkC15(c *Ctx) {
 		if putMeta != nil {
 			for _, f := range t.PkgFuncs(pInput) {
 				allInstrs(f, func(in ssa.Instruction) {
-					call, ok := in.(*ssa.Call)
-					if !ok || call.Call.StaticCallee() != putMeta {
+					ci, ok := in.(ssa.CallInstruction)
+					if !ok || ci.Common().StaticCallee() != putMeta {
 						return
 					}
+					_, deferred := in.(*ssa.Defer)
+					call := in
 					nRel++
-					m := call.Call.Args[0]
+					m := ci.Common().Args[0]
 					// where does the entry come from: a lookup / range over the point's index
 					var mapV, keyV ssa.Value
 					switch x := m.(type) {
@@ -409,12 +411,40 @@ func checkC15(c *Ctx) {
 							if !ok || builtinName(d) != "delete" {
 								return
 							}
-							if path(d.Call.Args[0]) == path(mapV) && (d.Call.Args[1] == keyV || path(d.Call.Args[1]) == path(keyV)) && precedes(d, call) {
-								unlinked = true
+							if path(d.Call.Args[0]) == path(mapV) && (d.Call.Args[1] == keyV || path(d.Call.Args[1]) == path(keyV)) {
+								if precedes(d, call) {
+									unlinked = true
+								}
+								if deferred {
+									// a deferred release runs at the exits: every exit reachable from the defer passes the delete
+									okAll := true
+									allInstrs(f, func(r2 ssa.Instruction) {
+										if ret, isRet := r2.(*ssa.Return); isRet && reachAvoid(call, ret, func(k ssa.Instruction) bool { return k == ssa.Instruction(d) }) {
+											okAll = false
+										}
+									})
+									if okAll {
+										unlinked = true
+									}
+								}
 							}
 						})
 					}
-					r.Ob("ACQ-REL", fmt.Sprintf("%s releases an index entry only after removing it from the index (PutMeta #%d)", relName(f), ordinalCall(f, call)), t.Pos(call.Pos()), unlinked,
+					nthPut, done := 0, false
+					for _, bb := range f.Blocks {
+						for _, ii := range bb.Instrs {
+							if done {
+								break
+							}
+							if c2, ok := ii.(ssa.CallInstruction); ok && c2.Common().StaticCallee() == putMeta {
+								nthPut++
+							}
+							if ii == call {
+								done = true
+							}
+						}
+					}
+					r.Ob("ACQ-REL", fmt.Sprintf("%s releases an index entry only after removing it from the index (PutMeta #%d)", relName(f), nthPut), t.Pos(call.Pos()), unlinked,
 						detail+": delete(Meta, key) with the same key must dominate PutMeta — an entry that goes back to the pool while a key still points at it is handed to another key later and both then share type and flag")
 				})
 			}
